@@ -678,7 +678,7 @@ func runCase(p plan, rnd *rand.Rand) (probs []problem, inc string, info map[stri
 		}
 	} else {
 		if !closedAfter {
-			add("hijacked-conn-not-closed", "the goroutine that ran the hijack handler is gone and the conn is still open")
+			add("hijacked-conn-not-closed", "the server is done with the connection (request context released or handler goroutine gone) and the conn is still open")
 		} else if closes != 1 || serverCloses != 1 {
 			add("hijacked-conn-close-count", fmt.Sprintf("conn Close called %d times (%d by the server after the handler)", closes, serverCloses))
 		}
@@ -706,7 +706,7 @@ func TestC17(t *testing.T) {
 	r.Rule("case = ServeConn over a scripted conn: 0-2 ordinary requests, a hijacking request (GET/POST+body/HEAD, optional Upgrade/101, response body 0-20000 bytes, HijackSetNoResponse 1/3) and a PRNG tail of 0-65536 bytes (random/http-like/CRLF/text) plus an optional second part sent only after the handler's first write; ReduceMemoryUsage, KeepHijackedConns, Read/WriteBufferSize and the fragmentation plan (everything per Read, boundary exactly at the request end, k bytes into the tail, k bytes before the end, fixed n) vary; the hijack handler writes, reads to EOF with PRNG read sizes, writes, optionally closes; in keep mode it may stop early and the kept conn is read to EOF afterwards. distinct = (options, method, fragmentation mode, tail size class, how many tail bytes were already consumed from the conn at hand-over: none/part/all, second part, close variants); non-trivial = tail non-empty")
 	r.Assume("h1 reference decides the request boundary and response framing; goroutine ids taken from runtime.Stack attribute conn operations; 'the server is done' = the goroutine that ran the hijack handler no longer exists")
 	r.Assume("requests with 'Connection: close' (documented: hijack handler skipped) are executed but not judged (events connclose_*)")
-	n := r.N(3000, 60000)
+	n := r.N(8000, 60000)
 	mon.Parallel(n, 0, func(i int) {
 		if !r.Want(i) {
 			return
